@@ -611,6 +611,15 @@ func (c *SpecCtx) call(e *ast.CallExpr) *Val {
 				}
 			}
 			c.fail("unknown type %q in typeis", name)
+		case "now":
+			// now(): the ghost instant (ns since the epoch) that time.Now() returns on this path
+			return intV(x.nowTerm(c.st))
+		case "timens":
+			v := c.eval(e.Args[0])
+			if v.K != kStruct && v.K != kPtr {
+				c.fail("timens() of a value that is not a time.Time")
+			}
+			return intV(x.tns(c.st, v))
 		case "itoa":
 			return scalar(itoaTerm(c.eval(e.Args[0]).T), types.Typ[types.String])
 		case "atoi":
